@@ -4,7 +4,7 @@ package vfn2
 
 import (
 	"fmt"
-	"math"
+	"time"
 
 	"github.com/cube2222/octosql/functions"
 	"github.com/cube2222/octosql/octosql"
@@ -42,17 +42,14 @@ var fnOverloads = []int{
 	1,
 }
 
-// fnUnsupported: descriptors the engine cannot execute (regexp, wall clock, time.Parse, the error
-// paths of strconv); they are left out of VerifC07Functions and probed one by one by
-// VerifC07FnProbe, which records the engine's reason.
+// fnUnsupported: descriptors the engine cannot execute (regexp.Compile is in a denied package;
+// time.Parse builds its error text with string(symbolic rune)); they are left out of
+// VerifC07Functions and probed one by one by VerifC07FnProbe / VerifC12PatternProbe, which record
+// the engine's reason.
 func fnUnsupported(name string, overload int) bool {
 	switch name {
-	case "like", "~", "~*", "now", "parse_time":
+	case "like", "~", "~*", "parse_time":
 		return true
-	case "int":
-		return overload == 3 // int(String): strconv.ParseInt
-	case "float":
-		return overload == 2 // float(String): strconv.ParseFloat
 	}
 	return false
 }
@@ -67,6 +64,10 @@ func printable(name string, depth, elems, strLen int) octosql.Value {
 	}
 	k := zzverif.Choice(name+".kind", n)
 	if k < len(kinds) {
+		if kinds[k] == octosql.VKDuration {
+			// Duration.String() on a symbolic number is a long chain of divisions: concrete samples
+			return octosql.NewDuration([]time.Duration{0, 1, -1 << 63, 1<<63 - 1, 1500 * time.Millisecond}[zzverif.Choice(name+".dur", 5)])
+		}
 		return octosql.VerifNDScalar(name, kinds[k], strLen)
 	}
 	cnt := zzverif.Choice(name+".n", elems+1)
@@ -183,17 +184,15 @@ func fnKnown(name string, overload int, values []octosql.Value) {
 		zzverif.Known("C07-duration-div-by-int-zero", values[1].Int == 0)
 	case name == "*" && overload == 4:
 		zzverif.Known("C07-repeat-negative-count", values[1].Int < 0)
-		zzverif.Known("C07-repeat-overflow", zzverif.And(values[1].Int > 1, int64(len(values[0].Str)) > math.MaxInt64/zzverif.IteInt64(values[1].Int > 1, values[1].Int, 2)))
 	case name == "*" && overload == 5:
 		zzverif.Known("C07-repeat-negative-count", values[0].Int < 0)
-		zzverif.Known("C07-repeat-overflow", zzverif.And(values[0].Int > 1, int64(len(values[1].Str)) > math.MaxInt64/zzverif.IteInt64(values[0].Int > 1, values[0].Int, 2)))
 	case name == "[]":
 		zzverif.Known("C07-index-negative", values[1].Int < 0)
 	case name == "substr" && overload == 0:
 		zzverif.Known("C07-substr-negative-start", values[1].Int < 0)
 	case name == "substr" && overload == 1:
 		zzverif.Known("C07-substr-negative-start", values[1].Int < 0)
-		zzverif.Known("C07-substr-negative-length", substr3Region(values))
+		zzverif.Known("C07-substr-length-negative-or-overflow", substr3Region(values))
 	}
 }
 
@@ -202,14 +201,18 @@ func fnKnown(name string, overload int, values []octosql.Value) {
 func fnBound(name string, overload int, values []octosql.Value) {
 	rc := int64(zzverif.Param("RC"))
 	if name == "*" && (overload == 4 || overload == 5) {
-		cnt, s := values[1].Int, values[0].Str
+		cnt := values[1].Int
 		if overload == 5 {
-			cnt, s = values[0].Int, values[1].Str
+			cnt = values[0].Int
 		}
-		// all negative counts, 0..RC, and the counts for which Repeat's overflow check fires
-		zzverif.Assume(zzverif.Or(cnt <= rc, zzverif.And(cnt >= 1<<62, len(s) >= 2)))
+		// all negative counts and 0..RC
+		zzverif.Assume(cnt <= rc)
 	}
 }
+
+// fnHeavy: functions whose library code forks per byte class (unicode tables, UTF-8 decoding);
+// with FN=-1 they are skipped unless HEAVY=1 and get their own instances with their own S.
+func fnHeavy(name string) bool { return name == "upper" || name == "lower" || name == "replace" }
 
 func fnPick() (string, int, physical.FunctionDescriptor) {
 	fi := zzverif.Param("FN")
@@ -226,11 +229,15 @@ func fnPick() (string, int, physical.FunctionDescriptor) {
 }
 
 // VerifC07Functions: no descriptor of functions.FunctionMap() panics on any arguments of its
-// declared types. Params: FN (index into fnNames, -1 = all), OV (overload, -1 = all), S (string
-// bytes), E (list/tuple elements), RC (largest non-negative repeat count).
+// declared types. Params: FN (index into fnNames, -1 = all), OV (overload, -1 = all), HEAVY (with
+// FN=-1: 0 skips upper/lower/replace), S (string bytes), E (list/tuple elements), RC (largest
+// non-negative repeat count).
 func VerifC07Functions() {
 	name, ov, d := fnPick()
 	if fnUnsupported(name, ov) {
+		return
+	}
+	if zzverif.Param("FN") < 0 && zzverif.Param("HEAVY") == 0 && fnHeavy(name) {
 		return
 	}
 	values := fnArgs(name, ov, d, zzverif.Param("E"), zzverif.Param("S"))
